@@ -101,16 +101,16 @@ class _ThreadFault:
             if self.fired is not None or self.n == self.k:
                 if self.fired is None:
                     self.fired = ev
-                raise OSError(fault.ERRNOS["ENOSPC"], "No space left on device [injected]", ev.dest)
+                raise fault.make_oserror(fault.ERRNOS["ENOSPC"], "No space left on device [injected]", ev)
             self.n += 1
             return
         if self.fired is not None:
             if self.sticky and self.fired.dest in ev.paths:
-                raise OSError(fault.ERRNOS["EIO"], "Input/output error [injected, persisting]", ev.dest)
+                raise fault.make_oserror(fault.ERRNOS["EIO"], "Input/output error [injected, persisting]", ev)
             return
         if self.n == self.k:
             self.fired = ev
-            raise OSError(fault.ERRNOS["EIO"], "Input/output error [injected]", ev.dest)
+            raise fault.make_oserror(fault.ERRNOS["EIO"], "Input/output error [injected]", ev)
         self.n += 1
 
 
